@@ -166,7 +166,13 @@ func c04GeneralizedTimes() []byte {
 		body = append(body, 0x18, byte(len(v)))
 		body = append(body, v...)
 	}
-	return append([]byte{0x30, 0x82, byte(len(body) >> 8), byte(len(body))}, body...)
+	hdr := []byte{0x30, byte(len(body))}
+	if len(body) >= 256 {
+		hdr = []byte{0x30, 0x82, byte(len(body) >> 8), byte(len(body))}
+	} else if len(body) >= 128 {
+		hdr = []byte{0x30, 0x81, byte(len(body))}
+	}
+	return append(hdr, body...)
 }
 
 func c04ValidTexts() []c04Text {
@@ -938,6 +944,7 @@ func genC04(c *Ctx) {
 		fmt.Fprintln(os.Stderr, "NOTE tz database absent: using fixed-offset TZ strings")
 	}
 	procs0 := runtime.GOMAXPROCS(0)
+	firstSeen := map[int]string{}
 	for idx, in := range inputs {
 		// every input in a directory of its own: two inputs may carry the same name (authorized_keys)
 		idir := filepath.Join(dir, fmt.Sprintf("i%03d", idx))
@@ -962,6 +969,9 @@ func genC04(c *Ctx) {
 			labels = append(labels, fmt.Sprintf("repetition %d", k))
 		}
 		l, first, firstLabel := c04Distinct(obs, labels)
+		if len(obs) > 0 {
+			firstSeen[idx] = obs[0] // the description before any later input was inspected in this process
+		}
 		c.Emit("repeat:"+in.tag, SL{S(in.name), SB(in.data), SB([]byte(first)), S(firstLabel)}, l)
 
 		// (2) from several goroutines of the harness at once, with 1, 2 and 16 threads running Go code
@@ -1017,6 +1027,10 @@ func genC04(c *Ctx) {
 	}
 	obsOf := map[int][]string{}
 	labOf := map[int][]string{}
+	for i, o := range firstSeen {
+		obsOf[i] = append(obsOf[i], o)
+		labOf[i] = append(labOf[i], "the first inspection in this process (before the inputs after it)")
+	}
 	passes := 3
 	for pass := 0; pass < passes; pass++ {
 		for pos, i := range order {
